@@ -498,18 +498,22 @@ where
     };
     let sp0 = sponge(cfg, 1);
     let (mut sp_p, mut sp_l, mut sp_r) = (sp0.clone(), sp0.clone(), sp0.clone());
-    let mut proof: Vec<LinCodePCProof<SF, RoMT>> = match catch(|| w.open(&[0], 0, &mut sp_p)) {
+    // every polynomial of the configuration is opened in one call; the replaced component belongs to the last one
+    let np = w.lps.len();
+    let idx: Vec<usize> = (0..np).collect();
+    let tgt = np - 1;
+    let mut proof: Vec<LinCodePCProof<SF, RoMT>> = match catch(|| w.open(&idx, 0, &mut sp_p)) {
         Ok(Ok(p)) => p,
         _ => return Verdict::Discard("honest phase failed".into()),
     };
     let mut pt = w.points[0].1.clone();
-    let mut val = w.lps[0].evaluate(&pt);
+    let mut vals: Vec<SF> = idx.iter().map(|i| w.lps[*i].evaluate(&pt)).collect();
     let x = sym("x");
     let names = ["honest", "value", "point[0]", "v[0]", "v[last]", "columns[0][0]", "columns[last][last]", "well_formedness[0]", "path[0].leaf_sibling", "path[0].auth_path[0]", "drop-last-column+path", "v-extended", "path[last].leaf_sibling", "path[first repeated index].leaf_sibling"];
     {
-        let (paths, pv, cols, wf) = proof[0].verif_parts_mut();
+        let (paths, pv, cols, wf) = proof[tgt].verif_parts_mut();
         match which {
-            1 => val = x,
+            1 => vals[tgt] = x,
             2 => { let mut c = S::point_coords(&pt); c[0] = x; pt = S::point(&cfg.sz, c); }
             3 => pv[0] = x,
             4 => { let n = pv.len(); pv[n - 1] = x }
@@ -533,7 +537,6 @@ where
         }
     }
     // reference relation
-    let (n_rows, n_cols, n_ext, root) = w.comms[0].commitment().parts();
     let (mut sec, rho_inv, mut wf_required) = cfg.sz.ligero;
     let mut distance = (rho_inv - 1, rho_inv);
     let bdp = if bd {
@@ -555,15 +558,21 @@ where
             None => rs_encode(m, rho_inv),
         }
     };
+    let mut ok = true;
+    for pi in 0..np {
+    if !ok {
+        break;
+    }
+    let (n_rows, n_cols, n_ext, root) = w.comms[pi].commitment().parts();
+    let val = vals[pi];
     let t = match ark_poly_commit::linear_codes::verif_hooks::calculate_t::<SF>(sec, distance, n_ext) {
         Ok(t) => t,
         Err(_) => return Verdict::Discard("calculate_t failed".into()),
     };
-    let (paths, pv, cols, wf) = proof[0].verif_parts();
+    let (paths, pv, cols, wf) = proof[pi].verif_parts();
     let mut b = vec![];
     root.serialize_compressed(&mut b).unwrap();
     sp_r.absorb(&b);
-    let mut ok = true;
     let mut r: Vec<SF> = vec![];
     if wf_required {
         match wf {
@@ -647,7 +656,8 @@ where
         let ip: SF = pv.iter().zip(a.iter()).map(|(x, y)| *x * *y).sum();
         ok = ip == val;
     }
-    let lib = catch(|| w.check(&[0], &pt, vec![val], &proof, &mut sp_l));
+    }
+    let lib = catch(|| w.check(&idx, &pt, vals.clone(), &proof, &mut sp_l));
     decide(lib, ok, &format!("{}, replaced component: {}", S::NAME, names[which.min(13)]))
 }
 
